@@ -214,8 +214,8 @@ func c07Sanitize(ops []asmcat.Op, progBank byte) []asmcat.Op {
 		}
 	}
 	// keep the program inside its bank (sanitising may have changed its size)
-	if len(out) > 0 && out[0].Kind == "setbase" && int(out[0].V&0xffff)+len(m.Bytes) > 0x10000 {
-		out[0].V = out[0].V&0xff0000 | uint32(0x10000-len(m.Bytes))&0xffff
+	if bi := asmcat.BaseIndex(out); bi >= 0 && int(out[bi].V&0xffff)+len(m.Bytes) > 0x10000 {
+		out[bi].V = out[bi].V&0xff0000 | uint32(0x10000-len(m.Bytes))&0xffff
 	}
 	return out
 }
@@ -287,8 +287,8 @@ func TestC07(t *testing.T) {
 			r.Rapid("rapid", rig.Pick(30000, 120000), func(t *rapid.T) {
 				ops := asmcat.GenHistory(t, asmcat.GenOpts{MaxOps: rig.Pick(30, 100), SetBase: true, Assume: true, BadGuard: true, Straight: true})
 				bank := byte(0)
-				if len(ops) > 0 && ops[0].Kind == "setbase" {
-					bank = byte(ops[0].V >> 16)
+				if bi := asmcat.BaseIndex(ops); bi >= 0 {
+					bank = byte(ops[bi].V >> 16)
 				}
 				c := c07Case{Ops: c07Sanitize(ops, bank), A: uint16(rapid.IntRange(0, 3).Draw(t, "a")), X: rapid.Uint16().Draw(t, "x"), Y: rapid.Uint16().Draw(t, "y"),
 					S: rapid.SampledFrom([]uint16{0x01ff, 0x1fff, 0x0100}).Draw(t, "s"), D: rapid.SampledFrom([]uint16{0, 0x0100, 0x1234}).Draw(t, "d"),
@@ -296,8 +296,8 @@ func TestC07(t *testing.T) {
 				if len(c.Ops) > 1 && rapid.IntRange(0, 2).Draw(t, "via-clone") == 0 {
 					c.CloneFrom = rapid.IntRange(0, len(c.Ops)-1).Draw(t, "clone-from")
 					c.CloneTo = rapid.IntRange(c.CloneFrom+1, len(c.Ops)).Draw(t, "clone-to")
-					if c.CloneFrom == 0 && c.Ops[0].Kind == "setbase" {
-						c.CloneFrom = 1 // the base is set on the original
+					if bi := asmcat.BaseIndex(c.Ops); bi >= 0 && c.CloneFrom <= bi {
+						c.CloneFrom = bi + 1 // the base is set on the original
 					}
 					if c.CloneTo <= c.CloneFrom {
 						c.CloneFrom, c.CloneTo = 0, 0
